@@ -191,16 +191,22 @@ class C13Clauses(Clauses):
                             {"text": op["literal"], "error": type(exc).__name__})
                 return {"C13.spelling": "VIOLATED"}
             return None
-        mixed = want is not None and len({b for b, _ in want[0]}) > 1
         first = self.groups.setdefault(g, value)
+        # binary and decimal prefixes among the terms (even if they cancel in the product):
+        # the library folds them through float logarithms in evaluation order
+        mixed = bool(op.get("mixed")) or (want is not None and len({b for b, _ in want[0]}) > 1)
+        try:
+            if isinstance(first.prefix.exponent, float) or isinstance(value.prefix.exponent, float):
+                mixed = True
+        except AttributeError:
+            pass
         if mixed:
             # binary and decimal prefixes in one expression: the library folds them with float
             # logarithms in evaluation order, so only the numeric scale is comparable (1e-9)
             a, b = I.nf_of(first), I.nf_of(value)
-            same = a is not None and b is not None and a[1] == b[1] and abs(
-                float(M.p_value(a[0])) / float(M.p_value(b[0])) - 1.0) <= 1e-9
+            same = a is not None and b is not None and a[1] == b[1] and M.p_close(a[0], b[0])
             if same and not amb:
-                same = b[1] == want[1] and abs(float(M.p_value(b[0])) / float(M.p_value(want[0])) - 1.0) <= 1e-9
+                same = b[1] == want[1] and M.p_close(b[0], want[0])
             if not same:
                 I.violation("C13.spelling", "C13/spellings-differ/%s" % op.get("variant", "?"),
                             {"text": op["literal"], "parsed": M.nf_str(b), "first": M.nf_str(a), "mixed_base": True})
